@@ -108,10 +108,30 @@ def targets():
 
 
 
-STAGES = [['C20_spec.v'],
-          ['C20_acc.v', 'C20_mag.v', 'C20_magnorm.v', 'C20_gyro_rad.v', 'C20_gyro_deg.v', 'C20_repr.v',
-           ('C20_refuted.v', {'finding': TAG_MAG0})],
-          ['C20.v']]
+def _finding_live():
+    """does the recorded magnetometer-noise override still reproduce on the implementation under check?"""
+    try:
+        r = o_sensors(WITNESS_MAG0)
+        return r is not None and r.get('tag') == TAG_MAG0
+    except Exception:
+        return True
+
+
+def _stages():
+    """While the known finding is live the model must exhibit it (C20_refuted.v) and the magnetometer clause is the
+    `_partial` theorem; once it no longer reproduces (fixes/C20-mag-noise-override.patch) the refuted file is expected to
+    stop compiling (handled by the framework) and the positive theorem C20_mag_is_body_field (C20_magfix.v, C20_fixed.v)
+    becomes an obligation."""
+    live = _finding_live()
+    st2 = ['C20_acc.v', 'C20_mag.v', 'C20_magnorm.v', 'C20_gyro_rad.v', 'C20_gyro_deg.v', 'C20_repr.v',
+           ('C20_refuted.v', {'finding': TAG_MAG0})]
+    st3 = ['C20.v']
+    if not live:
+        st2.append('C20_magfix.v')
+    out = [['C20_spec.v'], st2, st3]
+    if not live:
+        out.append(['C20_fixed.v'])
+    return out
 
 
 # ------------------------------------------------------------------------------------------
@@ -330,14 +350,18 @@ def o_sensors(inp):
             return {'tag': f'{E}.ang_pos/not-angles-of-quaternion', 'observed': _euler_R(ap[i]), 'expected': Rs[i], 'note': f'row {i}'}
     # ---- accelerometers / magnetometers
     body = lambda v: np.array([Rs[i].T @ v for i in range(n)])
+    pending = None
     for name, val, ref, lvl_req, lvl_rep, key in (('acc', acc, gref, inp.get('sa'), s.acc_noise, 'na'),
                                                   ('mag', mag, mref, inp.get('sm'), s.mag_noise, 'nm')):
         sc = max(1e-300, float(np.linalg.norm(ref)))
         clean = body(ref)
         if lvl_req is not None and np.ndim(lvl_rep) == 0 and float(lvl_rep) != float(lvl_req):
             tag = TAG_MAG0 if name == 'mag' else f'{E}.generate/{name}-noise-attribute-not-the-requested'
-            return {'tag': tag, 'observed': float(lvl_rep), 'expected': float(lvl_req),
+            fail = {'tag': tag, 'observed': float(lvl_rep), 'expected': float(lvl_req),
                     'note': f'requested {name}_noise is replaced; residual {cm.maxabs(val, clean):.6g}'}
+            if name != 'mag':
+                return fail
+            pending = fail           # keep checking the other clauses (with the reported level): a different failure wins
         lvl = float(lvl_rep)
         if name == 'mag' and nrm:
             nr = np.linalg.norm(val, axis=1)
@@ -422,7 +446,7 @@ def o_sensors(inp):
                 if dist > bound[t] * (1 + 1e-6) + 2e-7:
                     return {'tag': f'{E}+AngularRate/re-integration-leaves-the-trajectory', 'observed': dist, 'expected': f'<= {bound[t]}',
                             'note': f'sample {t} of {n}; max step angle {th.max():.4g} rad'}
-    return None
+    return pending
 
 
 ORACLES = {'sensors': o_sensors}
@@ -439,36 +463,46 @@ def sens_call(inp):
 
 
 def search(ctx, scale):
-    M = _mod()
+    """every attribute of a case is drawn independently (seeded), so that no option, size or noise pattern is tied to
+    another one; the first cases enumerate sizes x zero-noise settings exhaustively"""
     r = ctx.rng
-    sizes = [10, 11, 12, 13, 16, 20, 25, 32, 50, 51, 64, 100]
+    sizes = [10, 11, 12, 13, 16, 20, 25, 32, 50, 51, 64, 100, 128]
     trajs = ['const-axis', 'smooth', 'stationary', 'pause-then-turn', 'from-identity', 'random-unit']
-    k = 0
-    for rep in range(5 * scale):
-        for traj in trajs:
-            for deg in (False, True):
-                for nrm in (False, True):
-                    k += 1
-                    n = sizes[k % len(sizes)] if scale == 1 or k % 3 else int(r.integers(10, 200))
-                    lv = [(0.0, 0.0, 0.0), (0.0, 0.0, 1e6), (0.3, 0.05, 0.0), (0.0, 0.05, 40.0), (2.0, 0.0, 3e5), (0.0, 0.0, 0.0)][k % 6]
-                    inp = {'kind': 'given', 'traj': traj, 'n': n, 'tseed': int(r.integers(1, 2**31)), 'seed': int(r.integers(1, 2**31)),
-                           'theta': float([0.002, 0.05, 0.3, 0.9][k % 4]), 'freq': [100.0, 50.0, 10.0, 200.0, 1.0, 100][k % 6],
-                           'sg': lv[0], 'sa': lv[1], 'sm': lv[2], 'in_degrees': deg, 'normalized_mag': nrm,
-                           'qform': ['array', 'list', 'QuaternionArray', 'scaled'][k % 4], 'flip': k % 5 == 0, 'twice': k % 7 == 0}
-                    if k % 3 == 0:
-                        inp['mref'] = (r.standard_normal(3) * 10 ** r.uniform(-1, 4)).tolist()
-                        inp['gref'] = (r.standard_normal(3) * 9.8).tolist()
-                    if k % 11 == 0:
-                        inp['mref'] = [0.5, 0.5, 0.5]; inp['sm'] = 0.0     # ptp of a stationary identity trajectory is 0 here
-                    ctx.check('sensors', inp, sens_call(inp),
-                              nontrivial_key=None if traj == 'stationary' else ('given', traj, deg, nrm, inp['seed']))
-    for rep in range(6 * scale):
-        for deg in (False, True, None):
+    levels = [(0.0, 0.0, 0.0), (0.0, 0.0, 1e6), (0.3, 0.05, 0.0), (0.0, 0.05, 40.0), (2.0, 0.0, 3e5), (0.0, 0.0, 0.0), (0.0, 0.0, 0.0)]
+    pick = lambda xs: xs[int(r.integers(0, len(xs)))]
+
+    def given(n, lv, deg, nrm, traj):
+        inp = {'kind': 'given', 'traj': traj, 'n': int(n), 'tseed': int(r.integers(1, 2**31)), 'seed': int(r.integers(1, 2**31)),
+               'theta': float(pick([0.002, 0.05, 0.3, 0.9])), 'freq': pick([100.0, 50.0, 10.0, 200.0, 1.0, 100]),
+               'sg': lv[0], 'sa': lv[1], 'sm': lv[2], 'in_degrees': deg, 'normalized_mag': nrm,
+               'qform': pick(['array', 'list', 'QuaternionArray', 'scaled']), 'flip': bool(r.integers(0, 5) == 0),
+               'twice': bool(r.integers(0, 6) == 0)}
+        if r.integers(0, 3) == 0:
+            inp['mref'] = (r.standard_normal(3) * 10 ** r.uniform(-1, 4)).tolist()
+            inp['gref'] = (r.standard_normal(3) * 9.8).tolist()
+        if r.integers(0, 12) == 0:
+            inp['mref'] = [0.5, 0.5, 0.5]; inp['sm'] = 0.0; inp['traj'] = 'stationary'    # ptp(magnetometers) = 0
+        ctx.check('sensors', inp, sens_call(inp),
+                  nontrivial_key=None if inp['traj'] == 'stationary' else ('given', inp['traj'], deg, nrm, inp['seed']))
+
+    def rand(n, lv, deg, nrm):
+        inp = {'kind': 'random', 'n': int(n), 'seed': int(r.integers(1, 2**31)), 'freq': pick([100.0, 50.0, 100.0, 200.0]),
+               'sg': lv[0], 'sa': lv[1], 'sm': lv[2], 'in_degrees': deg, 'normalized_mag': nrm, 'twice': bool(r.integers(0, 6) == 0)}
+        ctx.check('sensors', inp, sens_call(inp), nontrivial_key=('random', deg, nrm, inp['seed']))
+
+    for n in sizes:                                   # exhaustive: size x units x normalisation at zero noise
+        for deg in (False, True):
             for nrm in (False, True):
-                k += 1
-                lv = [(0.0, 0.0, 0.0), (0.0, 0.0, 1e6), (None, None, None), (0.0, 0.05, 1e6), (1.0, 0.0, 0.0), (0.0, None, 3e5)][k % 6]
-                inp = {'kind': 'random', 'n': sizes[k % len(sizes)] if k % 4 else int(r.integers(10, 400)), 'seed': int(r.integers(1, 2**31)),
-                       'freq': [100.0, 50.0, 100.0, 200.0][k % 4], 'sg': lv[0], 'sa': lv[1], 'sm': lv[2],
-                       'in_degrees': deg, 'normalized_mag': nrm if k % 5 else None, 'twice': k % 7 == 0}
-                ctx.check('sensors', inp, sens_call(inp), nontrivial_key=('random', deg, nrm, inp['seed']))
+                given(n, (0.0, 0.0, 1e6 if nrm else 0.0), deg, nrm, pick(trajs[:2]))
+                rand(n, (0.0, 0.0, 1e6), deg, nrm)
+    for _ in range(300 * scale):
+        n = pick(sizes) if r.integers(0, 4) else int(r.integers(10, 300))
+        given(n, pick(levels), pick([False, True]), pick([False, True]), pick(trajs))
+    rlevels = [(0.0, 0.0, 0.0), (0.0, 0.0, 1e6), (None, None, None), (0.0, 0.05, 1e6), (1.0, 0.0, 0.0), (0.0, None, 3e5), (0.0, 0.0, 1e6)]
+    for _ in range(120 * scale):
+        n = pick(sizes) if r.integers(0, 4) else int(r.integers(10, 400))
+        rand(n, pick(rlevels), pick([False, True, None]), pick([False, True, None]))
     ctx.samples.append({'kind': 'search', 'oracle': 'sensors', 'input': WITNESS_MAG0})
+
+
+STAGES = _stages()
